@@ -114,9 +114,10 @@ structure R (W : Type) (α : Type) where
 
 variable {W : Type}
 
-/-- a new descriptor for an open file description: `create_fd` / `open_fd` (lowest free, no flags) -/
+/-- a new descriptor for the here-document's open file description: `open_tmpfile` (lowest free) with
+    the flag the descriptor has when `here_doc::open_fd` hands it back (`hereDocCloexec`) -/
 def allocLowest (o : Oracle W) (w : W) (t : FdTable) (ofd : Nat) : W × Option (Fd × FdTable) :=
-  ((o.deny w).1, t.openFdGe 0 { ofd := ofd, cloexec := false } (o.deny w).2)
+  ((o.deny w).1, t.openFdGe 0 { ofd := ofd, cloexec := hereDocCloexec } (o.deny w).2)
 
 /-- `Open::open` of the virtual system: first `has_unused_fd` (EMFILE before anything happens to the
     file system; the oracle may strike here too), then resolve (creation, truncation, errno), then
@@ -183,13 +184,16 @@ def openNormalFile (o : Oracle W) (w : W) (t : FdTable) (op : FileOp) (path : Na
   | .fileAppend => openFile o w t fileAppend path
   | .fileInOut => openFile o w t fileInOut path
 
-/-- `here_doc::open_fd` -/
+/-- `here_doc::open_fd`: `open_tmpfile` on the lowest free descriptor — the descriptor ends up with the
+    flag `hereDocCloexec` (re-extracted: `open_tmpfile` sets none, an `fcntl_setfd` in `open_fd` would) —,
+    `fill_content`, and — iff `hereDocClosesOnFailure` (re-extracted) — `close` when that fails -/
 def hereDocFd (o : Oracle W) (w : W) (t : FdTable) (content : List Nat) : R W FdSpec :=
   match allocLowest o (o.tmpfile w).1 t (o.tmpfile w).2 with
   | (w2, none) => { w := w2, t := t, r := .error (.tmpUnavailable .EMFILE) }
   | (w2, some (fd, t')) =>
     if (o.fill w2 (o.tmpfile w).2 content).2 then { w := (o.fill w2 (o.tmpfile w).2 content).1, t := t', r := .ok (.owned fd) }
-    else { w := (o.fill w2 (o.tmpfile w).2 content).1, t := t'.close fd, r := .error (.tmpUnavailable .EIO) }
+    else { w := (o.fill w2 (o.tmpfile w).2 content).1, t := if hereDocClosesOnFailure then t'.close fd else t',
+           r := .error (.tmpUnavailable .EIO) }
 
 /-- `System::pipe` as the command substitution in an operand needs it
     (`expansion/initial/command_subst.rs`): two descriptors, the lowest free and the next, both
